@@ -56,6 +56,17 @@ def build():
     m0 = re.search(r'Square kSq = s\.kingSqComputed;', sp.body)
     if not m0 or norm(re.sub(LAMBDA, '', sp.body[:m0.start()])) != 'for (int c = 0; c < 2; c++) { FirstLayerState& s = getLinState(c);' or not re.search(r'\}\s*\}\s*\Z', sp.body):
         raise ExtractError('tiling pin changed: loop header of NNEvaluator::setPiece')
+    # first loop of computeL1WB (lazy refresh), per-perspective body: apply the pending queue unless the king square changed, then empty the queue
+    U.tr.typemap['bool*'] = '_Bool*'; U.tr.typemap['Square*'] = 'Square*'; U.tr.typemap['int*'] = 'int*'
+    U.stub('ghost_addSub', 'void ghost_addSub(S16* l1Out, const int* toAdd, int toAddLen, const int* toSub, int toSubLen)')
+    U.tr.declare('ghost_addSub', None, 'ghost_addSub', 'void', [('S16', 'l1Out', True), ('int*', 'toAdd', False), ('int', 'toAddLen', False), ('int*', 'toSub', False), ('int', 'toSubLen', False)])
+    cw = find_function(src, 'NNEvaluator::computeL1WB')
+    m1 = re.search(r'doFull\[c\] = s\.kingSqComputed != kingSq\[c\];', cw.body)
+    if not m1 or norm(cw.body[:m1.start()]) != 'bool doFull[2]; Square kingSq[2]; kingSq[0] = posP->getKingSq(true); kingSq[1] = posP->getKingSq(false); for (int c = 0; c < 2; c++) { FirstLayerState& s = getLinState(c);':
+        raise ExtractError('tiling pin changed: head of NNEvaluator::computeL1WB')
+    U.fragment(NN_C, 'NNEvaluator_computeL1WB_apply', r'doFull\[c\] = s\.kingSqComputed != kingSq\[c\];', r'\}\s*if \(!doFull\[0\] && !doFull\[1\]\)', within='NNEvaluator::computeL1WB',
+               params=[('FirstLayerState', 's', True), ('bool*', 'doFull', False), ('Square*', 'kingSq', False), ('int', 'c', False)], cls='NNEvaluator', is_static=True,
+               rules=[(r'addSubWeights\(s\.l1Out, netData\.weight1, ', 'ghost_addSub(s.l1Out, ', 1)])
     U.pull(NN_C, 'NNEvaluator::pushState')
     U.pull(NN_C, 'NNEvaluator::popState', rules=[(r'forceFullEval\(\);', 'forceFullEval(true);', 1)])
     return U
@@ -83,6 +94,11 @@ static _Bool acc_ok(const struct NNEvaluator* e, int c) {
     const struct FirstLayerState* s = &e->stack.flState[e->stack.stackTop][c];
     if (s->toAddLen < 0 || s->toAddLen > 4 || s->toSubLen < 0 || s->toSubLen > 4 || s->kingSqComputed < -1 || s->kingSqComputed > 63) return 0;
     return s->kingSqComputed == -1 || spec_pending(s) == ghost_full[c]; }
+static S16 spec_apply(S16 l1, const int* add, int al, const int* sub, int sl) {
+    unsigned a = 0, b = 0;
+    for (int i = 0; i < 4; i++) { if (i < al) a += (U16)W(add[i]); }
+    for (int i = 0; i < 4; i++) { if (i < sl) b += (U16)W(sub[i]); }
+    return (S16)(U16)((U16)l1 + a - b); }
 static _Bool st_ok(const struct FirstLayerState* s) {
     return !(s->toAddLen < 0 || s->toAddLen > 4 || s->toSubLen < 0 || s->toSubLen > 4 || s->kingSqComputed < -1 || s->kingSqComputed > 63); }
 /* complete case split on the queue lengths of the state (5 x 5 cases, each a separate run) */
@@ -139,6 +155,20 @@ CONTRACTS = {
                         'if (isNonKing(newPiece)) ghost_v += (U16)W(nn_getIndex(s->kingSqComputed, NNEvaluator_ptValue_AT(newPiece), square, c == 0)); '
                         'ghost_full[c] = (S16)(U16)ghost_v; }'),
     },
+    # assumed (A-LANE, generic kernel addSubWeights): out += sum of added rows - sum of subtracted rows, in queue order
+    'ghost_addSub': {'requires': ['__CPROVER_rw_ok(l1Out, sizeof(*l1Out))', '0 <= toAddLen && toAddLen <= 4 && 0 <= toSubLen && toSubLen <= 4',
+                                  '__CPROVER_r_ok(toAdd, 4 * sizeof(int))', '__CPROVER_r_ok(toSub, 4 * sizeof(int))'],
+                     'assigns': ['*l1Out'],
+                     'ensures': ['*l1Out == spec_apply(__CPROVER_old(*l1Out), toAdd, toAddLen, toSub, toSubLen)']},
+    # lazy refresh, first loop: afterwards the queue is empty in every case; when the king square is unchanged the accumulator has absorbed
+    # the queue (state still equals the from-scratch value); doFull tells the second part which perspectives to rebuild
+    'NNEvaluator_computeL1WB_apply': {
+        'requires': ['__CPROVER_is_fresh(s, sizeof(*s))', '__CPROVER_is_fresh(doFull, 2 * sizeof(_Bool))', '__CPROVER_is_fresh(kingSq, 2 * sizeof(Square))', 'c == 0 || c == 1',
+                     'st_ok(s)', 'ST_ACC(s, c)', '0 <= kingSq[c] && kingSq[c] < 64'],
+        'assigns': ['*s', 'doFull[c]'],
+        'ensures': ['s->toAddLen == 0 && s->toSubLen == 0', 'doFull[c] == (__CPROVER_old(s->kingSqComputed) != kingSq[c])',
+                    's->kingSqComputed == __CPROVER_old(s->kingSqComputed)', '!doFull[c] ==> (s->kingSqComputed != -1 && s->l1Out == ghost_full[c])'],
+    },
     'NNEvaluator_pushState': {
         'requires': [_SELF, 'STACK_OK(self)', 'self->stack.stackTop < NNEvaluator_maxStackSize - 1', 'acc_ok(self, 0) && acc_ok(self, 1)'],
         'assigns': ['__CPROVER_object_whole(self)', 'ghost_full[0]', 'ghost_full[1]'],
@@ -179,24 +209,26 @@ void h_lemma_index_symmetry(void) {
 void h_clear(void) { struct FirstLayerState* s; hv(); FirstLayerState_clear(s); CANARY_POINT; }
 void h_setPiece(void) { struct NNEvaluator* e; int sq, a, b; hv(); NNEvaluator_setPiece(e, sq, a, b); CANARY_POINT; }
 void h_setPiece_one(void) { struct FirstLayerState* s; int sq, a, b, c; hv(); NNEvaluator_setPiece_one(s, sq, a, b, c); CANARY_POINT; }
+void h_l1wb_apply(void) { struct FirstLayerState* s; _Bool* d; Square* k; int c; hv(); NNEvaluator_computeL1WB_apply(s, d, k, c); CANARY_POINT; }
 void h_pushState(void) { struct NNEvaluator* e; hv(); NNEvaluator_pushState(e); CANARY_POINT; }
 void h_popState(void) { struct NNEvaluator* e; hv(); NNEvaluator_popState(e); CANARY_POINT; }
 void h_forceFullEval(void) { struct NNEvaluator* e; _Bool c = (nondet_int() != 0); hv(); NNEvaluator_forceFullEval(e, c); CANARY_POINT; }
 '''
-UNWIND = {'spec_pending': 5, 'NNEvaluator_setPiece': 3, 'NNEvaluator_pushState': 3, 'NNEvaluator_forceFullEval': 3}
+UNWIND = {'spec_pending': 5, 'spec_apply': 5, 'NNEvaluator_setPiece': 3, 'NNEvaluator_pushState': 3, 'NNEvaluator_forceFullEval': 3}
 GROUPS = [
     Group('getIndex', 'h_getIndex', enforce='nn_getIndex', min_props=2),
     Group('index_symmetry', 'h_lemma_index_symmetry', min_props=2),
     Group('FirstLayerState_clear', 'h_clear', enforce='FirstLayerState_clear', min_props=2),
     Group('setPiece_one', 'h_setPiece_one', enforce='NNEvaluator_setPiece_one', min_props=5, timeout=1800,
           cases=('case', [('CASE_AL=%d' % a, 'CASE_SL=%d' % b) for a in range(5) for b in range(5)])),
+    Group('computeL1WB_apply', 'h_l1wb_apply', enforce='NNEvaluator_computeL1WB_apply', replace=('ghost_addSub',), min_props=5, timeout=900),
     Group('pushState', 'h_pushState', enforce='NNEvaluator_pushState', replace=('NNEvaluator_computeL1WB',), defines=('NN_STACK_BOUND=8',), min_props=5, timeout=1800, bounded='stack of 8 levels instead of maxStackSize = 400 (the functions are uniform in the level: they touch only levels stackTop, stackTop-1 and 0)'),
     Group('popState', 'h_popState', enforce='NNEvaluator_popState', replace=('NNEvaluator_forceFullEval',), defines=('NN_STACK_BOUND=8',), min_props=3, bounded='stack of 8 levels instead of maxStackSize = 400 (the functions are uniform in the level: they touch only levels stackTop, stackTop-1 and 0)'),
     Group('forceFullEval', 'h_forceFullEval', enforce='NNEvaluator_forceFullEval', replace=('FirstLayerState_clear',), defines=('NN_STACK_BOUND=8',), min_props=3, bounded='stack of 8 levels instead of maxStackSize = 400 (the functions are uniform in the level: they touch only levels stackTop, stackTop-1 and 0)'),
 ]
 # The whole-function groups of setPiece (mode M / dfcc on the 400-level stack object) did not finish; it is verified as the per-perspective
 # fragment setPiece_one (complete 5x5 case split on the queue lengths) plus the pinned loop header (composition on paper, DESIGN 13.8).
-PROPERTIES = {'C07': ['getIndex', 'index_symmetry', 'FirstLayerState_clear', 'setPiece_one', 'pushState', 'popState', 'forceFullEval']}
+PROPERTIES = {'C07': ['getIndex', 'index_symmetry', 'FirstLayerState_clear', 'setPiece_one', 'computeL1WB_apply', 'pushState', 'popState', 'forceFullEval']}
 ASSUMPTIONS = {'C07': [
     'A-LANE: the 256-lane first-layer accumulator is modelled by one generic 16-bit lane (lanes are independent in the generic kernels addSubWeights/copyVec: out(i) += w(row, i))',
     'first-layer weights W and ptValue are uninterpreted tables (arbitrary network)',
